@@ -96,6 +96,17 @@ class World:
         )
         kw.update(c["server_kwargs"])
         self.server = aioftp.Server(ulist, **kw)
+        if c.get("slow_auth"):   # a user manager whose password check takes a few loop iterations (as one backed by a database would)
+            um = self.server.user_manager
+            orig = um.authenticate
+            n_it = int(c["slow_auth"])
+
+            async def slow(user, password):
+                import asyncio
+                for _ in range(n_it):
+                    await asyncio.sleep(0)
+                return await orig(user, password)
+            um.authenticate = slow
         self.populate(self.init_tree)
         self.loop.run_task(self.server.start(self.net.host, CTL_PORT))
         return self
